@@ -154,6 +154,17 @@ twin("q", (1, 0, 0), 2, 1, True)
 twin("t", (0, 0, 0), 0, 2)
 twin("t", (3, 0, 1), 1, 0)
 twin("t", (2, 0, 1), 0, 1)
+# ---- C08 at World level: purge + teardown with drop-counting tokens (constant generations)
+def wdrop(tier, op, t, p):
+    h("%s_wdrop_o%d_t%d_%s" % (tier, op, t, pn(p)), 10, "wdrop::wdrop_step(%d, %d, %s)" % (op, t, P(p)))
+wdrop("q", 0, 1, (0, 0, 3))
+wdrop("q", 1, 1, (0, 2, 0))
+wdrop("q", 2, 0, (0, 2, 3))
+wdrop("q", 3, 1, (0, 0, 0))
+wdrop("t", 4, 0, (3, 0, 2))
+wdrop("t", 0, 2, (0, 0, 0))
+wdrop("t", 1, 0, (0, 3, 0))
+wdrop("t", 2, 0, (0, 0, 0))
 src = "// GENERATED by tools/gen_variants.py -- do not edit\n" + "\n".join(out) + "\n\npub const REGISTRY: &[(&str, fn())] = &[\n"
 for n in names:
     src += '    ("%s", %s as fn()),\n' % (n, n)
